@@ -401,3 +401,43 @@ pub proof fn sdd_wmc_elems<T: Semiring>(s: Seq<SddAnd>, k: int, c: bool, w: W<T>
         }
     }
 }
+
+/// THEOREM (C11, first sentence, for SDD pointers, relative to the partition / decomposability hypothesis sdd_ok of C04): under
+/// normalised weights the count -- hence the semantic hash, which is the count under the hash weights -- of an SDD is determined by
+/// the Boolean function: two SDDs (over any vtrees, of any shape or history) that denote the same function have the same count
+pub proof fn sdd_wmc_denotational<T: Semiring>(p: SddPtr, q: SddPtr, w: W<T>, vs: Seq<u64>)
+    requires
+        csr::<T>(), wv(w), distinct(vs), sdd_ok(p), sdd_ok(q),
+        forall|x: VarLabel| sdd_mentions(p, x) || sdd_mentions(q, x) ==> vs.contains(x.0),
+        forall|i: int| 0 <= i < vs.len() ==> normalised(w, #[trigger] vs[i]),
+        forall|e: Env| sdd_sem(p, false, e) == sdd_sem(q, false, e),
+    ensures
+        swmc(p, false, w) == swmc(q, false, w),
+{
+    let env = |x: u64| false;
+    sdd_wmc_theorem(p, false, w, vs, env);
+    sdd_wmc_theorem(q, false, w, vs, env);
+    assert(sind::<T>(p, false) =~= sind::<T>(q, false));
+}
+/// ... and an SDD and its negation count to one together (a negation hashes to one minus the hash)
+pub proof fn sdd_wmc_neg_complement<T: Semiring>(p: SddPtr, w: W<T>, vs: Seq<u64>)
+    requires
+        csr::<T>(), wv(w), distinct(vs), sdd_ok(p),
+        forall|x: VarLabel| sdd_mentions(p, x) ==> vs.contains(x.0),
+        forall|i: int| 0 <= i < vs.len() ==> normalised(w, #[trigger] vs[i]),
+    ensures
+        swmc(p, false, w).add_spec(swmc(p, true, w)) == T::one_s(),
+{
+    c_consts::<T>();
+    let env = |x: u64| false;
+    sdd_wmc_theorem(p, false, w, vs, env);
+    sdd_wmc_theorem(p, true, w, vs, env);
+    let g1 = sind::<T>(p, false); let g2 = sind::<T>(p, true);
+    assert(gv(g1)); assert(gv(g2));
+    zsum_add(g1, g2, w, vs, env);
+    let k = |e: Env| T::one_s();
+    assert(gadd(g1, g2) =~= k) by {
+        assert forall|e: Env| #[trigger] gadd(g1, g2)(e) == T::one_s() by { lemma_sdd_sem_flip(p, false, e); c_add_zero(T::one_s()); c_add_comm(T::one_s(), T::zero_s()); }
+    }
+    zsum_const(k, T::one_s(), w, vs, env);
+}
